@@ -84,6 +84,7 @@ uint64_t vp_notified(const void * cv) {
     pthread_mutex_unlock(&g_nmx); return r;
 }
 void vp_concolic_stop(void) {}
+void vp_sched_point(const char * tag) { const char * p = getenv("VP_DELAY_AT"); if (p && strcmp(p, tag) == 0) usleep(300000); }
 uint64_t vp_concrete(uint64_t v) { return v; }
 void vp_watch(const void *, uint64_t, const char *) {}
 }
